@@ -1,6 +1,6 @@
 (* C04: concrete runs - non-vacuity of the theorems' hypotheses, and bad traces the monitor rejects. *)
 From SC Require Import Lib.Prelude Lib.Int Lib.Host Model.Rwa Model.RwaCompliance Model.RwaIdentity
-  Run.C04Compliance Run.C04Identity Run.C04 Proofs.RwaPrefix.
+  Run.C04Compliance Run.C04Identity Run.C04Stack Run.C04 Proofs.RwaPrefix.
 
 Definition ex_cfg : hostcfg := default_cfg 6312000.
 Definition ex_univ : list addr := [0; 1; 2; 3]%N.
@@ -93,3 +93,32 @@ Definition set_paused_obs (b : bool) (o : obs) : obs :=
   mkObs b (ob_supply o) (ob_accts o) (ob_allow o) (ob_idv o) (ob_cmp o) (ob_cmp_set o) (ob_idv_set o).
 Definition cset_obs (o : cobs) (t : trace) : trace :=
   cmap_items (con_last (fun it => CI (ci_call it) (ci_out it) o)) t.
+
+(* ---- the whole stack ---- *)
+Definition sx_univ : list addr := [0; 1; 2; 3]%N.
+Definition sx_tok : addr := 10%N.
+(* accounts 0 and 1 have identities 30 / 31; topic 1 is required, issuer 40 trusted for it *)
+Definition sx_world (cl0 : list claim) : iworld :=
+  mkIW [(0, 30); (1, 31)]%N [(1, [40%N])] [(30%N, cl0); (31%N, [good_claim 40%N 1])] [].
+Definition sx_w : iworld := sx_world [good_claim 40%N 1].
+Definition sx_history : list scall :=
+  [ STok (SetCompliance 3%N) [3%N] [] sx_w; STok (SetIdentityVerifier 3%N) [3%N] [] sx_w;
+    SCmp (mkCC (CAddModule HCanTransfer 21%N 3%N) [3%N] []); SCmp (mkCC (CAddModule HCanTransfer 20%N 3%N) [3%N] []);
+    SCmp (mkCC (CAddModule HTransferred 22%N 3%N) [3%N] []); SCmp (mkCC (CBind sx_tok 3%N) [3%N] []);
+    STok (Mint 0%N 100 3%N) [3%N] [] sx_w ].
+Definition sx_trace (cs : list scall) : trace := observe_stack_model ex_cfg cex_cfg sx_univ sx_tok cs.
+Definition sset_last (f : sitem -> sitem) (t : trace) : trace :=
+  match t with
+  | StackTrace t => mkSTrace (st_hc t) (st_cf t) (st_univ t) (st_tok t)
+                      (match rev (st_items t) with [] => [] | it :: r => rev (f it :: r) end)
+  | x => x
+  end.
+(* graft the outcome and observation of another (successful) run onto the last call *)
+Definition sgraft (good : trace) (t : trace) : trace :=
+  match good with
+  | StackTrace g => match rev (st_items g) with
+                    | it' :: _ => sset_last (fun it => SI (si_call it) (si_out it') (si_obs it')) t
+                    | [] => t
+                    end
+  | _ => t
+  end.
